@@ -1,5 +1,5 @@
 CONSTANTS Tier = "quick"
- Data = "small"
+ Data = "pairs"
  Mutant = "none"
  Space = "sound"
  Mode = "check"
